@@ -54,13 +54,16 @@ func checkC11(c *Ctx) {
 		fl := NewFlow(p, fn)
 		sigBase := s.sig(ic, fn)
 		sites := callsIn(fn, false, func(cc *ssa.CallCommon) bool { return calleeIs(cc, check) || calleeIs(cc, insert) })
-		if len(sites) == 0 {
+		// the keys given to check/insert, in the function or in private helpers of the package that
+		// receive the key (or what it is built from) as arguments
+		ksites := c11KeySites(ic, check, insert)
+		if len(ksites) == 0 {
 			c.Unresolved("C11.1", "Cache."+s.name, "no check/insert call")
 			continue
 		}
 		var missMsg, missSig, missSigners, missCount, missSizes []string
-		for _, site := range sites {
-			d := ic.deps(site.Common().Args[1])
+		for _, ks := range ksites {
+			d := ks.deps
 			hasAll := func(tags []string) bool {
 				for _, t := range tags {
 					found := false
@@ -81,7 +84,7 @@ func checkC11(c *Ctx) {
 					okMsg = true
 				}
 			}
-			where := p.Pos(site.Pos()) + " key incorporates {" + join(d.sorted()) + "}"
+			where := p.Pos(ks.site.Pos()) + " key incorporates {" + join(d.sorted()) + "}"
 			if !okMsg {
 				missMsg = append(missMsg, where)
 			}
@@ -108,7 +111,7 @@ func checkC11(c *Ctx) {
 		}
 		what := map[string]string{"Sign": "the message", "Verify": "the message", "BatchVerify": "every per-signer message and its signer id (hash result reaching the key)"}[s.name]
 		c.Check(len(missMsg) == 0, "C11.1/message", "Cache."+s.name, p.FuncPos(fn),
-			"every key given to check/insert ("+itoa(len(sites))+" sites) incorporates "+what,
+			"every key given to check/insert ("+itoa(len(ksites))+" sites) incorporates "+what,
 			"cache key does not incorporate "+what+": a verdict remembered for one message/batch is returned for another; "+join(missMsg))
 		c.Check(len(missSig) == 0, "C11.1/signature", "Cache."+s.name, p.FuncPos(fn),
 			"every key incorporates signature.ToBytes()", "cache key does not incorporate the signature bytes; "+join(missSig))
@@ -132,7 +135,13 @@ func checkC11(c *Ctx) {
 				}
 			})
 			if deleg == nil {
-				c.Violated("C11.2", "Cache."+s.name+": delegate", p.FuncPos(fn), "no call of impl."+delegName)
+				if ok, detail := c11DelegateThroughHelper(c, fl, delegName, check, insert); ok {
+					c.Held("C11.2", "Cache."+s.name+": hit = success, miss = delegate's verdict, remember only successes", p.FuncPos(fn), detail)
+				} else if detail != "" {
+					c.Violated("C11.2", "Cache."+s.name+": hit = success, miss = delegate's verdict, remember only successes", p.FuncPos(fn), detail)
+				} else {
+					c.Violated("C11.2", "Cache."+s.name+": delegate", p.FuncPos(fn), "no call of impl."+delegName)
+				}
 				continue
 			}
 			dk := fl.K.Key(deleg)
@@ -240,6 +249,179 @@ func checkC11(c *Ctx) {
 		})
 		c.Check(ok, "C11.5", "insert: entries[key] = accessOrder.PushFront(key)", p.FuncPos(insert), "a new key enters both structures together", "insert does not add the same key to both structures")
 	}
+}
+
+type c11KeySite struct {
+	site ssa.CallInstruction
+	deps depSet
+}
+
+// c11KeySites: the check/insert call sites of ic.fn and of the private helpers of the package it
+// calls (two levels), each with what its key argument incorporates in ic.fn's terms.
+func c11KeySites(ic *incorp, check, insert *ssa.Function) []c11KeySite {
+	var out []c11KeySite
+	for _, site := range callsIn(ic.fn, false, func(*ssa.CallCommon) bool { return true }) {
+		cc := site.Common()
+		if calleeIs(cc, check) || calleeIs(cc, insert) {
+			out = append(out, c11KeySite{site, ic.deps(cc.Args[1])})
+			continue
+		}
+		if _, isGo := site.(*ssa.Go); isGo || ic.depth >= 2 {
+			continue
+		}
+		cal := cc.StaticCallee()
+		if cal == nil || cal == ic.fn || cal.Blocks == nil || cal.Synthetic != "" || cal.Object() == nil || cal.Object().Exported() || funcPkgPath(cal) != funcPkgPath(ic.fn) {
+			continue
+		}
+		sub := newIncorp(ic.p, cal)
+		sub.depth = ic.depth + 1
+		for _, ks := range c11KeySites(sub, check, insert) {
+			d := depSet{}
+			for tag := range ks.deps {
+				d.add(substParams(tag, cal, cc.Args, ic))
+			}
+			out = append(out, c11KeySite{ks.site, d})
+		}
+	}
+	return out
+}
+
+// c11DelegateThroughHelper: the delegated verification is a function literal `func() error {
+// return cache.impl.<name>(signature, message) }` that fl.Fn hands to a private helper of the
+// package together with the key; the helper consults the cache, runs the function it was given
+// and remembers the key. The verdict discipline is then judged in the helper, with the call of
+// its function parameter in the place of the delegate call, and fl.Fn must return the helper's
+// verdict. Returns (false, "") when the shape is not present.
+func c11DelegateThroughHelper(c *Ctx, fl *Flow, delegName string, check, insert *ssa.Function) (bool, string) {
+	p := c.P
+	fn := fl.Fn
+	var mc *ssa.MakeClosure
+	var deleg *ssa.Call
+	var lit *ssa.Function
+	eachInstr(fn, func(in ssa.Instruction) {
+		m, ok := in.(*ssa.MakeClosure)
+		if !ok {
+			return
+		}
+		cl, _ := m.Fn.(*ssa.Function)
+		if cl == nil {
+			return
+		}
+		k := NewKeyer(p, cl)
+		eachInstr(cl, func(in2 ssa.Instruction) {
+			if call, ok := in2.(*ssa.Call); ok && call.Call.IsInvoke() && call.Call.Method.Name() == delegName && strings.HasSuffix(k.Key(call.Call.Value), "Cache.impl") {
+				mc, deleg, lit = m, call, cl
+			}
+		})
+	})
+	if mc == nil {
+		return false, ""
+	}
+	var bad []string
+	// the literal returns the delegate's verdict and passes the caller's arguments on
+	lk := NewKeyer(p, lit)
+	for _, r := range returnsOf(lit) {
+		if len(r.Results) != 1 || retValue(r, 0) != ssa.Value(deleg) {
+			bad = append(bad, "the function literal at "+p.Pos(r.Pos())+" does not return the delegate's verdict")
+		}
+	}
+	inOuter := func(v ssa.Value) string {
+		fs := closureFactsInOuter(fl, mc, lit, FactSet{Fact{"true", lk.Key(v), ""}: true})
+		if len(fs) == 1 {
+			return fs[0].L
+		}
+		return "?"
+	}
+	argsOK := len(deleg.Call.Args) == 2 && inOuter(deleg.Call.Args[0]) == "p1" && inOuter(deleg.Call.Args[1]) == "p2"
+	// handed to a private helper of the package, and to nothing else
+	var hc *ssa.Call
+	var h *ssa.Function
+	argIdx := -1
+	if refs := mc.Referrers(); refs != nil {
+		for _, r := range *refs {
+			if _, isDbg := r.(*ssa.DebugRef); isDbg {
+				continue
+			}
+			call, ok := r.(*ssa.Call)
+			if !ok || hc != nil {
+				return false, "the verification function at " + p.InstrPos(mc) + " is used in a way the rule does not follow"
+			}
+			cal := call.Call.StaticCallee()
+			if cal == nil || cal.Blocks == nil || cal.Object() == nil || cal.Object().Exported() || funcPkgPath(cal) != funcPkgPath(fn) {
+				return false, "the verification function at " + p.InstrPos(mc) + " is handed to something other than a private helper of the package"
+			}
+			for j, a := range call.Call.Args {
+				if a == ssa.Value(mc) {
+					argIdx = j
+				}
+			}
+			hc, h = call, cal
+		}
+	}
+	if hc == nil || argIdx < 0 || argIdx >= len(h.Params) {
+		return false, "the verification function at " + p.InstrPos(mc) + " is never run"
+	}
+	// in the helper: its function parameter is only called
+	var dcalls []*ssa.Call
+	if refs := h.Params[argIdx].Referrers(); refs != nil {
+		for _, r := range *refs {
+			if _, isDbg := r.(*ssa.DebugRef); isDbg {
+				continue
+			}
+			call, ok := r.(*ssa.Call)
+			if !ok || call.Call.Value != ssa.Value(h.Params[argIdx]) {
+				return false, "helper " + shortName(h) + " does more with its function parameter than calling it"
+			}
+			dcalls = append(dcalls, call)
+		}
+	}
+	if len(dcalls) != 1 {
+		return false, "helper " + shortName(h) + " calls its function parameter " + itoa(len(dcalls)) + " times"
+	}
+	hfl := NewFlow(p, h)
+	dk := hfl.K.Key(dcalls[0])
+	for _, ds := range deepSites(hfl, func(cc *ssa.CallCommon) bool { return calleeIs(cc, insert) }, 0) {
+		if !errNilOf(ds.Facts, is(dk)) {
+			bad = append(bad, "insert at "+p.Pos(ds.Site.Pos())+" not dominated by "+delegName+" == nil")
+		}
+	}
+	for _, e := range successExits(hfl, 0) {
+		hit := trueOf(e.Facts, func(k string) bool { return strings.HasPrefix(k, "(*hs/security/cert.Cache).check(") })
+		if !hit && !errNilOf(e.Facts, is(dk)) && !(e.Via == dcalls[0]) {
+			bad = append(bad, "accepting exit at "+p.Pos(e.Ret.Pos())+" is neither a cache hit nor a delegate success")
+		}
+	}
+	for _, r := range returnsOf(h) {
+		v := retValue(r, 0)
+		if isNilConst(v) || !hfl.Reachable(r.Block()) {
+			continue
+		}
+		if hfl.K.Key(v) != dk && !knownNonNilError(v) {
+			bad = append(bad, "exit at "+p.Pos(r.Pos())+" returns "+hfl.K.Key(v))
+		}
+	}
+	// in the function: nothing is remembered outside the helper, and the verdict is the helper's
+	for _, ds := range deepSites(fl, func(cc *ssa.CallCommon) bool { return calleeIs(cc, insert) }, 0) {
+		if ds.Via != ssa.CallInstruction(hc) {
+			bad = append(bad, "insert at "+p.Pos(ds.Site.Pos())+" outside "+shortName(h))
+		}
+	}
+	for _, r := range returnsOf(fn) {
+		v := retValue(r, 0)
+		if !fl.Reachable(r.Block()) || knownNonNilError(v) {
+			continue
+		}
+		if v != ssa.Value(hc) {
+			bad = append(bad, "exit at "+p.Pos(r.Pos())+" returns "+fl.K.Key(v)+" instead of the verdict of "+shortName(h))
+		}
+	}
+	if !argsOK {
+		bad = append(bad, "the delegate is not called with the caller's signature and message")
+	}
+	if len(bad) > 0 {
+		return false, join(bad)
+	}
+	return true, "impl." + delegName + "(signature, message) is run by " + shortName(h) + " as the function it is given; there: insert only after it returned nil, every accepting exit is a hit or a delegate success, errors are the delegate's; the function returns that verdict"
 }
 
 // c11Pairing (C11.6): the key writes the signer ids (Participants().ForEach) and then the
